@@ -1,6 +1,7 @@
 package values
 
 import (
+	"fmt"
 	"reflect"
 	"sort"
 )
@@ -25,6 +26,37 @@ func (s genericSortable) Swap(i, j int) {
 // Less is part of sort.Interface.
 func (s genericSortable) Less(i, j int) bool {
 	return Less(s[i], s[j])
+}
+
+// SortedMapKeys returns the keys of a map in a fixed order (nil, numbers by
+// value, strings lexically, then everything else by type and printed form), so
+// that iterating over a map or converting it to an array does not depend on Go's
+// randomized map iteration order.
+func SortedMapKeys(m reflect.Value) []reflect.Value {
+	keys := m.MapKeys()
+	rank := func(k reflect.Value) int {
+		switch v := ToLiquid(k.Interface()); {
+		case v == nil:
+			return 0
+		case isIntKind(reflect.ValueOf(v).Kind()), isFloatKind(reflect.ValueOf(v).Kind()):
+			return 1
+		case reflect.ValueOf(v).Kind() == reflect.String:
+			return 2
+		default:
+			return 3
+		}
+	}
+	sort.Slice(keys, func(i, j int) bool {
+		a, b := keys[i].Interface(), keys[j].Interface()
+		if ra, rb := rank(keys[i]), rank(keys[j]); ra != rb {
+			return ra < rb
+		}
+		if Less(a, b) || Less(b, a) {
+			return Less(a, b)
+		}
+		return fmt.Sprintf("%T%v", a, a) < fmt.Sprintf("%T%v", b, b)
+	})
+	return keys
 }
 
 // SortByProperty sorts maps on their key indices.
